@@ -78,6 +78,16 @@ Definition trace_app (A : app) (e : environ) : option (list event) :=
   trace (cenv_of e) (ap_eh A) (program_of A e).
 End Serve.
 
+(* config.domain_map (ombott.py:386-391): the application name that the map gives for the request's host
+   (X-Forwarded-Host, else Host) is prefixed to PATH_INFO before anything else looks at the path.
+   [name] = domain_map(host), None when the map is not configured or answers nothing.  (An ASCII name:
+   the prefix is added to the undecoded PATH_INFO; environ[config.app_name_header] only feeds request.url.) *)
+Definition with_app_name (name : option str) (e : environ) : environ :=
+  match name with
+  | Some n => mkEnviron (47%N :: n ++ en_path e) (en_method e) (en_fw e) (en_json e) (en_url e)
+  | None => e
+  end.
+
 (* ------------------------------------------------------------------ *)
 (* correspondence interface                                            *)
 (* ------------------------------------------------------------------ *)
@@ -128,12 +138,14 @@ Definition dec_fspec (fuel : nat) (l : list Z) : option ((nat * fspec) * list Z)
   end.
 
 (* input: script of router commands (routerC's encoding, probes not used) ;
-          path ; method ; fw ; json ; url ; filter table for this path ;
+          domain_map(host) as an optional string ;
+          path ; method ; fw ; json ; url ; filter table for the effective path ;
           eh table ; before ; after ; handler specs ; hook specs
    output: as corr_C03 (kind 0) *)
 Definition corr_C03a (inp : list Z) : list Z :=
   let fuel := length inp in
-  match dec_list Router.dec_cmd inp with Some (cs, r0) =>
+  match dec_list Router.dec_cmd inp with Some (cs, r00) =>
+  match Router.dec_ostr r00 with Some (appname, r0) =>
   match dec_str r0 with Some (path, r1) =>
   match dec_str r1 with Some (meth, r2) =>
   match r2 with fw :: js :: r3 =>
@@ -152,10 +164,10 @@ Definition corr_C03a (inp : list Z) : list Z :=
   match dec_list (dec_fspec fuel) r9 with Some (kspecs, _) =>
     let R := Router.exec_cmds Router.router0 cs in
     let A := mkApplication R bef aft (handler_of hspecs) (hook_of kspecs) (partial_of kspecs) (eh_of_table tbl) in
-    let e := mkEnviron path meth (negb (Z.eqb fw 0)) (negb (Z.eqb js 0)) url in
-    let filt := Router.filt_of_table tab (length (Router.strip_sep (Router.req_path path))) in
+    let e := with_app_name appname (mkEnviron path meth (negb (Z.eqb fw 0)) (negb (Z.eqb js 0)) url) in
+    let filt := Router.filt_of_table tab (length (Router.strip_sep (Router.req_path (en_path e)))) in
     enc_wsgi (cenv_of e) (ap_eh A) (program_of filt A e)
   | None => bad_input end | None => bad_input end | None => bad_input end | None => bad_input end
   | None => bad_input end | None => bad_input end | None => bad_input end
   | _ => bad_input end
-  | None => bad_input end | None => bad_input end | None => bad_input end.
+    | None => bad_input end | None => bad_input end | None => bad_input end | None => bad_input end.
